@@ -1,4 +1,5 @@
 import Ark.Model.Subgroup
+import Ark.Model.Curve
 import Ark.Model.Proto
 /-
   Driver dispatch for C12 (subgroup membership tests, cofactor clearing).  Numbers lower-case hex; field
@@ -25,19 +26,27 @@ open Ark Ark.Proto Ark.ScalarMul Ark.Subgroup
 def vs (impl spec : String) : String := if impl == spec then "ok" else "bad:want=" ++ spec
 def b01 (b : Bool) : String := if b then "1" else "0"
 
-/-- reading / printing / reference arithmetic of one concrete group -/
-structure GIO (G : Type) where
-  parse : String → Option G
-  str : G → String
-  smul : Nat → G → G
-  onCurve : G → Bool
+/-- one configuration is executed in two groups:
+    `S` = the specification-level affine group (textbook law; reference scalar multiplication `smul`),
+    `G` = the group in which the MODEL is executed (the coordinate system of the Rust code). -/
+structure GIO (S G : Type) where
+  parse : String → Option S
+  str : S → String
+  smul : Nat → S → S
+  onCurve : S → Bool
+  /-- `From<Affine> for Projective` of the parsed point -/
+  toG : String → Option G
+  /-- `From<Projective> for Affine`, printed (`panic`: `Z = 0` on an incomplete twisted Edwards curve) -/
+  strG : G → String
+  /-- `.into()` followed by `.into_group()`: normalised representative, or the panic -/
+  normG : G → Outcome G
 
 /-- the modelled routines of one configuration -/
 structure Model (G : Type) where
   insub : G → Outcome Bool
   clear : G → Outcome G
   mulcof : G → G
-  cofinv : G → G
+  mulcofinv : G → G
   sampleAff : G → G
   sampleProj : G → G
 
@@ -68,50 +77,152 @@ def parseFq3 (p nr : Nat) (s : String) : Option (Fq3 p nr) :=
   | _ => none
 def strFq3 {p nr : Nat} (x : Fq3 p nr) : String := hex x.c0.val ++ "," ++ hex x.c1.val ++ "," ++ hex x.c2.val
 
-/-! ### groups -/
+/-! ### execution groups: the coordinate systems of the Rust code (C03 model `Ark.Curve`) -/
 
-def affIO (p : Nat) (E : SWParams p) : GIO (AffPt p E) where
-  parse s :=
-    if s == "inf" then some ⟨none⟩
-    else match s.splitOn ":" with
-      | [x, y] => do let x ← parseFp p x; let y ← parseFp p y; some ⟨some (x, y)⟩
-      | _ => none
-  str P := match P.pt with
+section exec
+variable {F : Type} [Add F] [Sub F] [Mul F] [Neg F] [Zero F] [One F] [Inv F] [DecidableEq F]
+
+/-- `short_weierstrass::Projective<P>` with the operators of the Rust type
+    (`x + x` with the very same value stands for `double_in_place`) -/
+structure JacG (c : Curve.SW.Curve F) where
+  j : Curve.SW.Jac F
+
+instance (c : Curve.SW.Curve F) : Add (JacG c) :=
+  ⟨fun p q => if p.j = q.j then ⟨Curve.SW.double c p.j⟩ else ⟨Curve.SW.add c p.j q.j⟩⟩
+instance (c : Curve.SW.Curve F) : Neg (JacG c) := ⟨fun p => ⟨p.j.neg⟩⟩
+instance (c : Curve.SW.Curve F) : Sub (JacG c) := ⟨fun p q => ⟨Curve.SW.sub c p.j q.j⟩⟩
+instance (c : Curve.SW.Curve F) : Zero (JacG c) := ⟨⟨Curve.SW.Jac.zero⟩⟩
+instance (c : Curve.SW.Curve F) : BEq (JacG c) := ⟨fun p q => p.j.eq q.j⟩
+
+def jacXY (c : Curve.SW.Curve F) : XY F (JacG c) where
+  xy P := match Curve.SW.toAffine P.j with
+    | .ok a => a.xy
+    | .panic => none
+  new x y := ⟨⟨x, y, 1⟩⟩
+
+def jacStr (c : Curve.SW.Curve F) (sf : F → String) (P : JacG c) : String :=
+  match Curve.SW.toAffine P.j with
+  | .panic => "panic"
+  | .ok a => match a.xy with
     | none => "inf"
-    | some (x, y) => strFp x ++ ":" ++ strFp y
-  smul := AffPt.smul
-  onCurve := AffPt.onCurve
+    | some (x, y) => sf x ++ ":" ++ sf y
 
-def affXY (p : Nat) (E : SWParams p) : XY (Fp p) (AffPt p E) where
-  xy P := P.pt
-  new x y := ⟨some (x, y)⟩
+def jacNorm (c : Curve.SW.Curve F) (P : JacG c) : Outcome (JacG c) :=
+  match Curve.SW.toAffine P.j with
+  | .panic => .panic
+  | .ok a => .ok ⟨Curve.SW.fromAffine a⟩
 
-def teIO (p : Nat) (E : TEParams p) : GIO (TEPt p E) where
-  parse s := match s.splitOn ":" with
-    | [x, y] => do let x ← parseFp p x; let y ← parseFp p y; some ⟨x, y⟩
+def jacParse (c : Curve.SW.Curve F) (pf : String → Option F) (s : String) : Option (JacG c) :=
+  if s == "inf" then some ⟨Curve.SW.Jac.zero⟩
+  else match s.splitOn ":" with
+    | [x, y] => do let x ← pf x; let y ← pf y; some ⟨⟨x, y, 1⟩⟩
     | _ => none
-  str P := strFp P.x ++ ":" ++ strFp P.y
-  smul := TEPt.smul
-  onCurve := TEPt.onCurve
+
+/-- `twisted_edwards::Projective<P>` (extended coordinates) -/
+structure ExtG (c : Curve.TE.Curve F) where
+  e : Curve.TE.Ext F
+
+instance (c : Curve.TE.Curve F) : Add (ExtG c) :=
+  ⟨fun p q => if p.e = q.e then ⟨Curve.TE.double c p.e⟩ else ⟨Curve.TE.add c p.e q.e⟩⟩
+instance (c : Curve.TE.Curve F) : Neg (ExtG c) := ⟨fun p => ⟨p.e.neg⟩⟩
+instance (c : Curve.TE.Curve F) : Sub (ExtG c) := ⟨fun p q => ⟨Curve.TE.sub c p.e q.e⟩⟩
+instance (c : Curve.TE.Curve F) : Zero (ExtG c) := ⟨⟨Curve.TE.Ext.zero⟩⟩
+instance (c : Curve.TE.Curve F) : BEq (ExtG c) := ⟨fun p q => p.e.eq q.e⟩
+
+def extStr (c : Curve.TE.Curve F) (sf : F → String) (P : ExtG c) : String :=
+  match Curve.TE.toAffine P.e with
+  | .panic => "panic"
+  | .ok a => sf a.x ++ ":" ++ sf a.y
+
+def extNorm (c : Curve.TE.Curve F) (P : ExtG c) : Outcome (ExtG c) :=
+  match Curve.TE.toAffine P.e with
+  | .panic => .panic
+  | .ok a => .ok ⟨Curve.TE.fromAffine a⟩
+
+def extParse (c : Curve.TE.Curve F) (pf : String → Option F) (s : String) : Option (ExtG c) :=
+  match s.splitOn ":" with
+  | [x, y] => do let x ← pf x; let y ← pf y; some ⟨Curve.TE.fromAffine ⟨x, y⟩⟩
+  | _ => none
+
+end exec
+
+/-! ### specification groups -/
+
+def affParse (p : Nat) (E : SWParams p) (s : String) : Option (AffPt p E) :=
+  if s == "inf" then some ⟨none⟩
+  else match s.splitOn ":" with
+    | [x, y] => do let x ← parseFp p x; let y ← parseFp p y; some ⟨some (x, y)⟩
+    | _ => none
+def affStr {p : Nat} {E : SWParams p} (P : AffPt p E) : String :=
+  match P.pt with
+  | none => "inf"
+  | some (x, y) => strFp x ++ ":" ++ strFp y
+
+def teParse (p : Nat) (E : TEParams p) (s : String) : Option (TEPt p E) :=
+  match s.splitOn ":" with
+  | [x, y] => do let x ← parseFp p x; let y ← parseFp p y; some ⟨x, y⟩
+  | _ => none
+def teStr {p : Nat} {E : TEParams p} (P : TEPt p E) : String := strFp P.x ++ ":" ++ strFp P.y
 
 section
 variable {F : Type} [Add F] [Sub F] [Mul F] [Neg F] [Zero F] [Div F] [DecidableEq F]
-def swIO (E : SWc F) (pf : String → Option F) (sf : F → String) : GIO (SWPt E) where
-  parse s :=
-    if s == "inf" then some ⟨none⟩
-    else match s.splitOn ":" with
-      | [x, y] => do let x ← pf x; let y ← pf y; some ⟨some (x, y)⟩
-      | _ => none
-  str P := match P.pt with
-    | none => "inf"
-    | some (x, y) => sf x ++ ":" ++ sf y
-  smul := SWPt.smul
-  onCurve := SWPt.onCurve
-
-def swXY (E : SWc F) : XY F (SWPt E) where
-  xy P := P.pt
-  new x y := ⟨some (x, y)⟩
+def swParse (E : SWc F) (pf : String → Option F) (s : String) : Option (SWPt E) :=
+  if s == "inf" then some ⟨none⟩
+  else match s.splitOn ":" with
+    | [x, y] => do let x ← pf x; let y ← pf y; some ⟨some (x, y)⟩
+    | _ => none
+def swStr {E : SWc F} (sf : F → String) (P : SWPt E) : String :=
+  match P.pt with
+  | none => "inf"
+  | some (x, y) => sf x ++ ":" ++ sf y
 end
+
+/-! #### twisted Edwards curves whose affine addition law is NOT complete (`a` a non-square or `d` a square:
+    bls12_377 `G1` in Edwards form, Bandersnatch): the specification group is the Weierstrass model of the
+    same curve, through the birational map
+      `(x, y) ↦ (u, v) = ((1+y)/(1-y), (1+y)/((1-y) x))` onto `B v² = u³ + A u² + u`,
+      `A = 2(a+d)/(a-d)`, `B = 4/(a-d)`, then `(X, Y) = (u/B + A/(3B), v/B)` onto
+      `Y² = X³ + (3-A²)/(3B²) X + (2A³-9A)/(27B³)`;
+    `(0, 1) ↦ O`, `(0, -1) ↦ (u, v) = (0, 0)`.  Points of the curve that are not affine Edwards points
+    (`v = 0` with `u ≠ 0`, or `u = -1`) print as `te-inf`. -/
+
+structure TeMap (p : Nat) where
+  A : Fp p
+  B : Fp p
+  E : SWParams p
+
+def teMap (p : Nat) (a d : Fp p) : TeMap p :=
+  let A := (Fp.ofNat p 2) * (a + d) / (a - d)
+  let B := (Fp.ofNat p 4) / (a - d)
+  let three := Fp.ofNat p 3
+  { A := A, B := B,
+    E := ⟨(three - A * A) / (three * B * B),
+          ((Fp.ofNat p 2) * A * A * A - (Fp.ofNat p 9) * A) / ((Fp.ofNat p 27) * B * B * B)⟩ }
+
+def teToSw {p : Nat} (m : TeMap p) (x y : Fp p) : AffPt p m.E :=
+  let one : Fp p := 1
+  if x = 0 then
+    if y = one then ⟨none⟩ else ⟨some (m.A / ((Fp.ofNat p 3) * m.B), 0)⟩
+  else
+    let u := (one + y) / (one - y)
+    let v := u / x
+    ⟨some (u / m.B + m.A / ((Fp.ofNat p 3) * m.B), v / m.B)⟩
+
+def swToTeStr {p : Nat} (m : TeMap p) (P : AffPt p m.E) : String :=
+  let one : Fp p := 1
+  match P.pt with
+  | none => "0:1"
+  | some (X, Y) =>
+    let u := m.B * X - m.A / (Fp.ofNat p 3)
+    let v := m.B * Y
+    if u = 0 ∧ v = 0 then "0:" ++ strFp (- one)
+    else if v = 0 ∨ u + one = 0 then "te-inf"
+    else strFp (u / v) ++ ":" ++ strFp ((u - one) / (u + one))
+
+def teMapParse (p : Nat) (m : TeMap p) (s : String) : Option (AffPt p m.E) :=
+  match s.splitOn ":" with
+  | [x, y] => do let x ← parseFp p x; let y ← parseFp p y; some (teToSw m x y)
+  | _ => none
 
 /-! ### header parsing -/
 
@@ -162,65 +273,66 @@ def parseG2Cfg (kv : List (String × String)) (needX : Bool) : Option G2Cfg := d
     some { x := x, xIsNegative := xneg == "1", frobC1 := frob }
   else some { x := [], xIsNegative := false, frobC1 := frob }
 
-/-! ### the per-line logic, generic in the group -/
+/-! ### the per-line logic, generic in the two groups -/
 
 section G
-variable {G : Type} [Add G] [Neg G] [Sub G] [Zero G] [DecidableEq G]
+variable {S G : Type} [Zero S] [DecidableEq S] [Add G] [Neg G] [Sub G] [Zero G] [BEq G]
 
 def sOB : Outcome Bool → String
   | .ok b => b01 b
   | .panic => "panic"
-def sOG (io : GIO G) : Outcome G → String
-  | .ok P => io.str P
+def sOG (io : GIO S G) : Outcome G → String
+  | .ok P => io.strG P
   | .panic => "panic"
 
 /-- which kind of input point this is (branch tag) -/
-def ptTag (io : GIO G) (r : Nat) (P : G) : String :=
+def ptTag (io : GIO S G) (r : Nat) (P : S) : String :=
   if P = 0 then "id" else if io.smul r P = 0 then "sub" else "out"
 
-def runOp (io : GIO G) (m : Model G) (cc : CurveCfg) (heff : Nat)
+def runOp (io : GIO S G) (m : Model G) (cc : CurveCfg) (heff : Nat)
     (op : String) (args : List String) (impl : String) : Option (String × String) :=
   let h := value cc.cofactor
   match op, args with
-  | "insub", [P, href] => do
-    let P ← io.parse P
+  | "insub", [Ps, href] => do
+    let P ← io.parse Ps; let Pg ← io.toG Ps
     if !io.onCurve P then some ("any", "bad:input-off-curve") else
     let spec := decide (io.smul cc.r P = 0)
     let v := if href != b01 spec then "bad:harness-ref=" ++ href ++ ",driver-ref=" ++ b01 spec
              else vs impl (b01 spec)
-    some (sOB (m.insub P) ++ " @" ++ (if spec then (if P = 0 then "id" else "sub") else "out"), v)
-  | "clear", [P, href] => do
-    let P ← io.parse P
+    some (sOB (m.insub Pg) ++ " @" ++ (if spec then (if P = 0 then "id" else "sub") else "out"), v)
+  | "clear", [Ps, href] => do
+    let P ← io.parse Ps; let Pg ← io.toG Ps
     if !io.onCurve P then some ("any", "bad:input-off-curve") else
     let want := io.smul heff P
     let v :=
       if href != io.str want then "bad:harness-ref=" ++ href ++ ",driver-ref=" ++ io.str want
-      else match io.parse impl with
-        | none => "bad:" ++ impl
-        | some Q =>
-          if Q ≠ want then "bad:want=" ++ io.str want
-          else if io.smul cc.r Q ≠ 0 then "bad:result-not-in-subgroup"
-          else "ok"
-    some (sOG io (m.clear P) ++ " @" ++ ptTag io cc.r P, v)
-  | "mulcof", [P] => do
-    let P ← io.parse P
+      else if impl != io.str want then "bad:want=" ++ io.str want
+      else if io.smul cc.r want ≠ 0 then "bad:result-not-in-subgroup"
+      else "ok"
+    some (sOG io (m.clear Pg) ++ " @" ++ ptTag io cc.r P, v)
+  | "mulcof", [Ps] => do
+    let P ← io.parse Ps; let Pg ← io.toG Ps
     if !io.onCurve P then some ("any", "bad:input-off-curve") else
-    some (io.str (m.mulcof P), vs impl (io.str (io.smul h P)))
-  | "cofinv", [P] => do
-    let P ← io.parse P
+    some (io.strG (m.mulcof Pg), vs impl (io.str (io.smul h P)))
+  | "cofinv", [Ps] => do
+    let P ← io.parse Ps; let Pg ← io.toG Ps
     if !io.onCurve P then some ("any", "bad:input-off-curve") else
     if io.smul cc.r P ≠ 0 then some ("any", "bad:input-not-in-subgroup") else
-    some (io.str (m.cofinv P), vs impl (io.str P))
+    -- `p.mul_by_cofactor()` converts to affine before `mul_by_cofactor_inv`
+    let mo := match io.normG (m.mulcof Pg) with
+      | .panic => "panic"
+      | .ok Q => io.strG (m.mulcofinv Q)
+    some (mo, vs impl (io.str P))
   | "rand", [which, P0] => do
-    let P0 ← io.parse P0
-    let mo := if which == "proj" then m.sampleProj P0 else m.sampleAff P0
+    let Pg ← io.toG P0
+    let mo := if which == "proj" then m.sampleProj Pg else m.sampleAff Pg
     let v := match io.parse impl with
       | none => "bad:" ++ impl
       | some Q =>
         if !io.onCurve Q then "bad:sample-off-curve"
         else if io.smul cc.r Q ≠ 0 then "bad:sample-not-in-subgroup"
         else "ok"
-    some (io.str mo, v)
+    some (io.strG mo, v)
   | _, _ => none
 
 end G
@@ -244,13 +356,13 @@ def headVerdict (hd : Head) (impl : String) : String × String :=
   (m, v)
 
 section mk
-variable {G : Type} [Add G] [Neg G] [Sub G] [Zero G] [DecidableEq G]
+variable {S G : Type} [Zero S] [DecidableEq S] [Add G] [Neg G] [Sub G] [Zero G] [BEq G]
 
 def swDefaults (cc : CurveCfg) : Model G where
   insub := swIsInCorrectSubgroup cc
   clear := fun P => .ok (swClearCofactor cc P)
   mulcof := swMulByCofactor cc
-  cofinv := fun P => swMulByCofactorInv cc (swMulByCofactor cc P)
+  mulcofinv := swMulByCofactorInv cc
   sampleAff := swSampleAffine cc
   sampleProj := swSampleProjective cc
 
@@ -258,11 +370,11 @@ def teDefaults (cc : CurveCfg) : Model G where
   insub := teIsInCorrectSubgroup cc
   clear := fun P => .ok (teClearCofactor cc P)
   mulcof := teMulByCofactor cc
-  cofinv := fun P => teMulByCofactorInv cc (teMulByCofactor cc P)
+  mulcofinv := teMulByCofactorInv cc
   sampleAff := teSampleAffine cc
   sampleProj := teSampleProjective cc
 
-def mkInst (io : GIO G) (m : Model G) (hd : Head) (impl : String) : Inst where
+def mkInst (io : GIO S G) (m : Model G) (hd : Head) (impl : String) : Inst where
   run := runOp io m hd.cc hd.heff
   head := headVerdict hd impl
 
@@ -273,10 +385,13 @@ def mkSwFp (hd : Head) (impl : String) : Option Inst := do
   let p := hd.p
   let a ← parseFp p hd.a; let b ← parseFp p hd.b
   let E : SWParams p := ⟨a, b⟩
-  let io := affIO p E
-  let xy := affXY p E
+  let c : Curve.SW.Curve (Fp p) := Curve.SW.Curve.std a b true
+  let io : GIO (AffPt p E) (JacG c) :=
+    { parse := affParse p E, str := affStr, smul := AffPt.smul, onCurve := AffPt.onCurve,
+      toG := jacParse c (parseFp p), strG := jacStr c strFp, normG := jacNorm c }
+  let xy := jacXY c
   let cc := hd.cc
-  let d : Model (AffPt p E) := swDefaults cc
+  let d : Model (JacG c) := swDefaults cc
   -- the public constants of the BLS12 configuration, when an override needs them
   let g1 : Option (Bls12G1 (Fp p)) := do
     let x ← (lookup hd.kv "x").bind parseList?
@@ -301,23 +416,41 @@ def mkSwFp (hd : Head) (impl : String) : Option Inst := do
     | _ => none
   some (mkInst io { d with insub := insub, clear := clear } hd impl)
 
+/-- Euler criterion -/
+def isSquare (p : Nat) (x : Fp p) : Bool := x.val == 0 || Spec.powMod x.val ((p - 1) / 2) p == 1
+
 /-- prime base field, twisted Edwards -/
 def mkTeFp (hd : Head) (impl : String) : Option Inst := do
   let p := hd.p
   let a ← parseFp p hd.a; let d ← parseFp p hd.b
-  let E : TEParams p := ⟨a, d⟩
+  let c : Curve.TE.Curve (Fp p) := Curve.TE.Curve.std a d
   if hd.test != "def" || hd.clear != "def" then none
-  else some (mkInst (teIO p E) (teDefaults hd.cc) hd impl)
+  else if isSquare p a && !isSquare p d then
+    -- complete addition law: the affine Edwards group itself is the specification
+    let E : TEParams p := ⟨a, d⟩
+    let io : GIO (TEPt p E) (ExtG c) :=
+      { parse := teParse p E, str := teStr, smul := TEPt.smul, onCurve := TEPt.onCurve,
+        toG := extParse c (parseFp p), strG := extStr c strFp, normG := extNorm c }
+    some (mkInst io (teDefaults hd.cc) hd impl)
+  else
+    let m := teMap p a d
+    let io : GIO (AffPt p m.E) (ExtG c) :=
+      { parse := teMapParse p m, str := swToTeStr m, smul := AffPt.smul, onCurve := AffPt.onCurve,
+        toG := extParse c (parseFp p), strG := extStr c strFp, normG := extNorm c }
+    some (mkInst io (teDefaults hd.cc) hd impl)
 
 /-- `Fq2` base field, short Weierstrass -/
 def mkSwFq2 (nr : Nat) (hd : Head) (impl : String) : Option Inst := do
   let p := hd.p
   let a ← parseFq2 p nr hd.a; let b ← parseFq2 p nr hd.b
   let E : SWc (Fq2 p nr) := ⟨a, b⟩
-  let io := swIO E (parseFq2 p nr) strFq2
-  let xy := swXY E
+  let c : Curve.SW.Curve (Fq2 p nr) := Curve.SW.Curve.std a b true
+  let io : GIO (SWPt E) (JacG c) :=
+    { parse := swParse E (parseFq2 p nr), str := swStr strFq2, smul := SWPt.smul, onCurve := SWPt.onCurve,
+      toG := jacParse c (parseFq2 p nr), strG := jacStr c strFq2, normG := jacNorm c }
+  let xy := jacXY c
   let cc := hd.cc
-  let d : Model (SWPt E) := swDefaults cc
+  let d : Model (JacG c) := swDefaults cc
   let insub ← match hd.test with
     | "def" => some d.insub
     | "bls381g2" => do let k ← parseG2Cfg hd.kv true; some (bls12381G2IsInCorrectSubgroup xy k k.x)
@@ -340,8 +473,12 @@ def mkSwFq3 (nr : Nat) (hd : Head) (impl : String) : Option Inst := do
   let p := hd.p
   let a ← parseFq3 p nr hd.a; let b ← parseFq3 p nr hd.b
   let E : SWc (Fq3 p nr) := ⟨a, b⟩
+  let c : Curve.SW.Curve (Fq3 p nr) := Curve.SW.Curve.std a b false
+  let io : GIO (SWPt E) (JacG c) :=
+    { parse := swParse E (parseFq3 p nr), str := swStr strFq3, smul := SWPt.smul, onCurve := SWPt.onCurve,
+      toG := jacParse c (parseFq3 p nr), strG := jacStr c strFq3, normG := jacNorm c }
   if hd.test != "def" || hd.clear != "def" then none
-  else some (mkInst (swIO E (parseFq3 p nr) strFq3) (swDefaults hd.cc) hd impl)
+  else some (mkInst io (swDefaults hd.cc) hd impl)
 
 def mkInstance (hd : Head) (impl : String) : Option Inst :=
   match hd.kind, hd.tower.splitOn ":" with
